@@ -4,9 +4,10 @@ node end up in, and which instance types may the created NodeClaim name.
 
 Written from the property text and the Kubernetes scheduling rules (a pod fits a node iff the node's
 labels satisfy its node selector / required node affinity, it tolerates the node's taints and its requests fit
-the allocatable), for the fragment the pass generator produces: set operators In/NotIn/Exists/DoesNotExist,
-one required affinity term, NoSchedule taints, cpu and pod-count resources, no inter-pod constraints, no
-NodePool limits, no reserved capacity.  Which pools are "ready" is read off the NodePool's stored status conditions
+the allocatable), for the fragment the pass generator produces: set operators In/NotIn/Exists/DoesNotExist
+(on zone / capacity type / instance type / the NodePool name label / custom template labels),
+one required affinity term, NoSchedule taints, PreferNoSchedule taints (a preference, never a reason to leave a pod
+without a node), cpu and pod-count resources, no inter-pod constraints, no NodePool limits, no reserved capacity.  Which pools are "ready" is read off the NodePool's stored status conditions
 (`readyCondition`).
 -/
 import Karp.Spec.WeightPrice
@@ -36,6 +37,8 @@ structure PPool where
   labels   : List (String × String)
   taints   : List String
   types    : List PType
+  /-- keys of the template's `PreferNoSchedule` taints -/
+  softTaints : List String := []
   /-- the status conditions stored on the NodePool, (type, status) with status "True" | "False" | "Unknown";
       `some []` = a NodePool that reports nothing yet -/
   conds    : Option (List (String × String)) := none
@@ -45,7 +48,11 @@ structure PPod where
   name : String
   cpu  : Nat
   reqs : List Req          -- node selector entries and the required affinity term, as one conjunction
-  tol  : List String
+  tol  : List String       -- keys tolerated for the effect NoSchedule
+  /-- keys tolerated for every effect (a toleration without an effect) -/
+  tolAll  : List String := []
+  /-- keys tolerated for the effect PreferNoSchedule only -/
+  tolSoft : List String := []
 deriving Repr
 
 /-- the labels of a node launched from pool `p` as instance type `t` through offering `o` -/
@@ -83,7 +90,15 @@ def whyUnusable (p : PPool) : String :=
       | some st => s!"its Ready condition is {st}, not True"
       | none => "it reports no Ready condition (not reconciled yet)"
 
-def tolerates (p : PPool) (pod : PPod) : Bool := p.taints.all (fun k => pod.tol.contains k)
+/-- Kubernetes: the pod tolerates every `NoSchedule` taint of the pool's nodes (a toleration matches a taint of its key
+    if it names the taint's effect or no effect at all) -/
+def tolerates (p : PPool) (pod : PPod) : Bool := p.taints.all (fun k => pod.tol.contains k || pod.tolAll.contains k)
+
+/-- Kubernetes: `PreferNoSchedule` is a PREFERENCE — the scheduler avoids nodes carrying such a taint the pod does not
+    tolerate as long as it has an alternative, and uses them when it has none.  `prefers p pod` = placing `pod` in `p`
+    goes against no such preference. -/
+def prefers (p : PPool) (pod : PPod) : Bool :=
+  p.softTaints.all (fun k => pod.tolAll.contains k || pod.tolSoft.contains k)
 
 /-- a node of type `t` bought through offering `o` in pool `p` can run all of `group` together -/
 def canLaunchFor (p : PPool) (group : List PPod) (t : PType) (o : Offering) : Bool :=
@@ -102,6 +117,14 @@ def optionsFor (p : PPool) (group : List PPod) : List PType :=
 def hosts (p : PPool) (group : List PPod) : Bool :=
   poolUsable p && group.all (tolerates p) && !(optionsFor p group).isEmpty
 
+/-- pool `p` is able to host `pod` on a new node, when the taint preferences are to be honoured (`strict`) or may be
+    overridden (`!strict`).  Being able to host never depends on a preference: `hostsAt false p pod = hosts p [pod]`. -/
+def hostsAt (strict : Bool) (p : PPool) (pod : PPod) : Bool :=
+  hosts p [pod] && (!strict || prefers p pod)
+
+/-- the taint preferences can be honoured for `pod`: some pool hosts it without going against one -/
+def preferenceSatisfiable (pools : List PPool) (pod : PPod) : Bool := pools.any (fun q => hostsAt true q pod)
+
 /-- the requirements a node for (`p`, `group`) has to meet -/
 def claimReqs (p : PPool) (group : List PPod) : List Req := p.reqs ++ group.flatMap (·.reqs)
 
@@ -112,6 +135,9 @@ structure Claim where
   pool  : String
   pods  : List String      -- first = the pod that needed the new node
   types : List String
+  /-- values of the created NodeClaim's own requirement `karpenter.sh/nodepool In […]` when it was observed:
+      `some none` = observed and there is no such requirement -/
+  poolReq : Option (Option (List String)) := none
 deriving Repr
 
 def findPool (pools : List PPool) (n : String) : Option PPool := pools.find? (·.name == n)
@@ -131,13 +157,28 @@ def claimVerdict (pools : List PPool) (pods : List PPod) (maxTypes : Int) (c : C
         if !poolUsable p then some s!"pod {opener.name} was given a node in NodePool {p.name}, which is not a ready dynamic pool: {whyUnusable p}"
         else if !hosts p [opener] then some s!"pod {opener.name} was given a node in NodePool {p.name}, which cannot host it"
         else
-          match pools.find? (fun q => decide (p.weight < q.weight) && hosts q [opener]) with
-          | some q => some s!"pod {opener.name} opened a node in NodePool {p.name} (weight {p.weight}) although the higher-weight NodePool {q.name} (weight {q.weight}) can host it"
-          | none =>
-            let opts := (optionsFor p group).map toIType
-            if !cheapestKeptSpec (claimReqs p group) maxTypes opts c.types then
-              some s!"NodeClaim in {p.name} for {c.pods}: instance types {c.types} are not the {maxTypes} cheapest of the options {opts.map (·.name)}"
-            else none
+          -- the node the claim stands for will carry the label nodepool=<p>: a claim that requires another value can
+          -- never become a node its pods may bind to
+          match c.poolReq with
+          | some (some vs) =>
+            if !vs.contains p.name then some s!"the NodeClaim for {c.pods} is labelled {nodePoolKey}={p.name} but requires {nodePoolKey} In {vs}: its pods can never bind to the node launched for them"
+            else weightAndPrice p group opener
+          | _ => weightAndPrice p group opener
+where
+  weightAndPrice (p : PPool) (group : List PPod) (opener : PPod) : Option String :=
+    -- PreferNoSchedule taints are honoured while some pool can host the pod without going against one; "infeasible
+    -- for that pod" is read at that level.  They never leave the pod without a node (see `passVerdict`).
+    let strict := preferenceSatisfiable pools opener
+    if strict && !prefers p opener then
+      some s!"pod {opener.name} was given a node in NodePool {p.name} against its PreferNoSchedule taint although {(pools.filter (fun q => hostsAt true q opener)).map (·.name)} can host it without going against one"
+    else
+      match pools.find? (fun q => decide (p.weight < q.weight) && hostsAt strict q opener) with
+      | some q => some s!"pod {opener.name} opened a node in NodePool {p.name} (weight {p.weight}) although the higher-weight NodePool {q.name} (weight {q.weight}) can host it"
+      | none =>
+        let opts := (optionsFor p group).map toIType
+        if !cheapestKeptSpec (claimReqs p group) maxTypes opts c.types then
+          some s!"NodeClaim in {p.name} for {c.pods}: instance types {c.types} are not the {maxTypes} cheapest of the options {opts.map (·.name)}"
+        else none
 
 /-- verdict on one pass -/
 def passVerdict (pools : List PPool) (pods : List PPod) (maxTypes : Int)
